@@ -84,6 +84,33 @@ func enumCacheKeys(tier string, yield func(*scen) bool) {
 	}
 }
 
+// enumCacheKeysRequired: the same long keys (as keys of a map) while a struct with REQUIRED fields is open, all
+// of them already seen: the key cache and the requires-bitmap cache of the pooled state machine are neighbours
+func enumCacheKeysRequired(tier string, yield func(*scen) bool) {
+	i32 := tbin.Sc(tbin.I32)
+	st := tbin.StructS(tbin.SField{ID: 1, Name: "m", S: tbin.MapS(tbin.Sc(tbin.STRING), i32), Req: 1}, tbin.SField{ID: 2, Name: "a", S: i32, Req: 1},
+		tbin.SField{ID: 3, Name: "r3", S: i32, Req: 1}, tbin.SField{ID: 5, Name: "r5", S: i32, Req: 1}, tbin.SField{ID: 6, Name: "r6", S: i32, Req: 1},
+		tbin.SField{ID: 9, Name: "r9", S: i32, Req: 1}, tbin.SField{ID: 70, Name: "r70", S: i32, Req: 1}, tbin.SField{ID: 4, Name: "o4", S: i32, Req: 2})
+	p := jt.NewProg("cache-keys-required", st)
+	lens := []int{1000, 1023, 1024, 1025, 1026, 1100, 2047, 2048, 2049, 4095, 4096, 4097, 5919, 5920, 5921, 6000}
+	for _, n := range lens {
+		for _, special := range []string{"", "\n", "é"} {
+			key := keyOfLen(n, special)
+			for esc := 0; esc < 5; esc++ {
+				j := jt.JObj().Add("a", jt.JNum("4")).Add("r3", jt.JNum("3")).Add("r5", jt.JNum("5")).Add("r6", jt.JNum("6")).Add("r9", jt.JNum("9")).Add("r70", jt.JNum("70")).
+					Add("m", (&jt.J{K: 'o'}).Add(string(key), jt.JNum("1")).Add("s", jt.JNum("2")))
+				want := tbin.Struct(tbin.F(2, tbin.I32v(4)), tbin.F(3, tbin.I32v(3)), tbin.F(5, tbin.I32v(5)), tbin.F(6, tbin.I32v(6)), tbin.F(9, tbin.I32v(9)), tbin.F(70, tbin.I32v(70)),
+					tbin.F(1, tbin.Map(tbin.STRING, tbin.I32, tbin.Bin(key), tbin.I32v(1), tbin.Str("s"), tbin.I32v(2))))
+				sc := &scen{op: "cache-keys", trigger: fmt.Sprintf("mapkey-while-required-fields-open,len=%s,special=%q,esc%d", lenClass(n), special, esc), prog: p, optName: "none",
+					doc: jt.Render(j, jt.Spell{Esc: esc}), want: tbin.Bytes(want), ks: []int{0, 3}}
+				if !yield(sc) {
+					return
+				}
+			}
+		}
+	}
+}
+
 func lenClass(n int) string {
 	switch {
 	case n < 512:
